@@ -47,7 +47,8 @@ def main():
             shutil.copy(demo, dst)
             pm = re.search(r"^package\s+(\w+)", open(demo).read(), re.M)
             runname = "./" + pkgdir if pkgdir != "." else "."
-            democmd = "go test -vet=off -count=1 %s" % runname
+            race = " -race" if ("-race" in open(demo).read(3000) or "race" in json.dumps(meta).lower() and pid == "C06") else ""
+            democmd = "go test%s -vet=off -count=1 %s" % (race, runname)
         elif demo:
             os.makedirs(os.path.join(wt, "zz_seed_demo"), exist_ok=True)
             shutil.copy(demo, os.path.join(wt, "zz_seed_demo", "main.go"))
